@@ -3,22 +3,22 @@
 import json, subprocess
 claims = {
  "C02": ("block-level code under nopanic/terminates contracts - node BeginBlocker (under coherent validated parameters and the pool ratio, which every pool writer re-establishes), node EndBlock, model EndBlocker, genesis import of all six modules, reward math, provider selection, schedule writers, HandleExpiredShard (under a stated per-shard condition), termination of every loop of HandleTimeoutOrder: every panicking operation and every loop in those functions is an obligation; the two loops of sao.EndBlocker compose these per-item results by a meta-argument", "DESIGN.md 6 C02"),
- "C04": ("functional contracts of the escrow hops (Store charge = quoted price rounded up, renewal quote and charge, worker accrual, claim, deposit, order refund/termination, payment address) discharged for all inputs", "DESIGN.md 6 C04"),
+ "C04": ("functional contracts of the escrow hops (Store charge = quoted price rounded up, renewal quote and charge, worker accrual, claim, deposit, order refund/termination, payment address, hand-over of serving order, queued renewals and end height when a migrated shard is completed) discharged for all inputs", "DESIGN.md 6 C04"),
  "C05": ("postconditions of cancellation (Cancel handler, CancelOrder, RefundOrder, RollbackMeta) taken from the statement, discharged for all orders, shard lists and metadata states", "DESIGN.md 6 C05"),
  "C06": ("ledger/bank pairing clauses on the functions that move escrowed coins (DID balances, order refunds, pledge, release, claim)", "DESIGN.md 6 C06"),
  "C07": ("delta contracts on every collateral function (ShardPledge, ShardRelease, RepayPledgeDebt, Add/RemoveVstorage, ClaimReward) incl. capacity invariant and exact amounts", "DESIGN.md 6 C07"),
  "C08": ("mint bound, counter == minted, accumulator update (BeginBlocker) and settle invariants of every capacity change; claim pays floor(Q) less debt", "DESIGN.md 6 C08"),
  "C10": ("actor clauses from the statement on Complete (assigned provider or its registered address), Cancel, Store (payer/gateway), Ready, Renew, Migrate (own completed shards only), Terminate and on the node handlers Create/Reset/Add/RemoveVstorage/ClaimReward (frames keyed by msg.Creator)", "DESIGN.md 6 C10"),
  "C12": ("scheduling and per-step progress contracts: Store/Ready schedule the first check strictly in the future, SetTimeoutOrderBlock keeps the queue, HandleTimeoutOrder leaves the order resolved or rescheduled (one known finding) and never touches a fully stored order; the step from per-step progress to 'eventually' is a meta-argument over block production", "DESIGN.md 6 C12"),
- "C13": ("relational clauses on the writers of orders and shards: NewOrder/GenerateShards/Store/Ready create exactly the listed shards pointing back at the order, HandleTimeoutOrder keeps every shard that names the order listed by it, HandleExpiredShard removes the order with its last shard, NewMeta creates exactly one alias entry; the whole-state invariant is assumed at entry of each handler and re-established clause by clause, not discharged against InitGenesis", "DESIGN.md 6 C13"),
- "C11": ("scheduling contracts of the data-expiry schedule (set/remove/rollback) with uniqueness preconditions", "DESIGN.md 6 C11"),
+ "C13": ("relational clauses on the writers of orders and shards: NewOrder/GenerateShards/Store/Ready create exactly the listed shards pointing back at the order, HandleTimeoutOrder keeps every shard that names the order listed by it, HandleExpiredShard removes the order with its last shard and reschedules a renewed shard at its new end height, Complete schedules the release of the completed shard and hands the serving order and renewals to a migrated shard, NewMeta creates exactly one alias entry and RollbackMeta/DeleteMeta remove it with the model; the whole-state invariant is assumed at entry of each handler and re-established clause by clause, not discharged against InitGenesis", "DESIGN.md 6 C13"),
+ "C11": ("scheduling contracts of the data-expiry schedule (set/remove/reset/rollback keep the model's single entry at CreatedAt+Duration of the stored record) and of the shard-expiry schedule (Complete, Renew, HandleExpiredShard reschedule at the end of the paid period)", "DESIGN.md 6 C11"),
  "C14": ("delta contracts for used capacity, shard collateral, worker storage/income and pool totals on every writer under contract", "DESIGN.md 6 C14"),
  "C16": ("identifier freshness and monotonicity of AppendOrder/AppendShard against the stored counters, with the id<count invariant as pre/postcondition", "DESIGN.md 6 C16"),
- "C01": ("per-transition frame obligations over the go/ssa call graph (no mutable package-level state read or written, wall clock/random sources reach only effect-free sinks, no goroutines/channels) for all 46 transitions, plus SMT-discharged order-independence contracts for every loop that ranges over a Go map (Terminate, UpdateMeta, DoPenalty)", "DESIGN.md 6 C01"),
+ "C01": ("per-transition frame obligations over the go/ssa call graph (no mutable package-level state read or written, wall clock/random sources reach only effect-free sinks, no goroutines/channels) for all 46 transitions, plus, for every loop that ranges over a Go map (Terminate, UpdateMeta, DoPenalty), an SMT-discharged order-independence contract over the modelled state and the rule that nothing reachable from the loop body emits an event", "DESIGN.md 6 C01"),
  "C03": ("per-transition frame obligations: no transition's closure reads or writes a mutable package-level variable (the only process memory a later transition could observe)", "DESIGN.md 6 C03"),
- "C09": ("signature/permission clauses from the statement on Store, Renew (owner only), Terminate, UpdateMeta (owner or read-write grantee) and UpdatePermission (owner only; the handler around it contains a closure with a loop and is not under contract), frame of all other models, trusted contract for verifySignature (sao-did)", "DESIGN.md 6 C09"),
+ "C09": ("signature/permission clauses from the statement on Store, Renew (owner only), Terminate, UpdateMeta (owner or read-write grantee) UpdatePermission (owner only) and its handler UpdataPermission (signed by the owner; the loop-carrying closure checkDid is abstracted by its write set), frame of all other models, trusted contract for verifySignature (sao-did)", "DESIGN.md 6 C09"),
  "C15": ("functional contracts of the selection chain: node filter (eligibility, stored, pairwise distinct via key order), RandomIndex (range, distinct, terminates), GetNextSuperNodes, RandomSP (count, eligible, not ignored, distinct); SelectNodes assumed with a bounded stand-in", "DESIGN.md 6 C15"),
- "C17": ("clauses from the statement on the three DID handlers: Binding (account not bound before, bound to the proof's DID afterwards, listed exactly once, proof signed by the account's key and timestamp within the window, creator already bound once the DID exists, first cosmos account becomes the payment address; the clause that the signed text names the DID and time is a recorded finding), Update (creator bound; the payment-address account is never unbound: call-site assertion at every RemoveDid), UpdatePaymentAddress (sid: the new address is an account bound to that DID on this chain; key: set once, by the address itself, one key DID per address); signature verification and CAIP-10 parsing are assumed contracts", "DESIGN.md 6 C17"),
+ "C17": ("clauses from the statement on the three DID handlers: Binding (account not bound before, bound to the proof's DID afterwards, listed exactly once, proof signed by the account's key and timestamp within the window, creator already bound once the DID exists, first cosmos account becomes the payment address; the clause that the signed text names the DID and time is a recorded finding), Update (creator bound; the payment-address account is never unbound: call-site assertion at every RemoveDid; every removed account is unbound and delisted, the others stay listed, and accounts of other DIDs stay bound - the last by the pigeonhole principle, a ghost axiom proved in lemmas/Pigeonhole.lean and re-checked by lean on every run, under the registry hypotheses C17.inv.nodup/listed), UpdatePaymentAddress (sid: the new address is an account bound to that DID on this chain; key: set once, by the address itself, one key DID per address); signature verification and CAIP-10 parsing are assumed contracts", "DESIGN.md 6 C17"),
  "C18": ("per module: footprint obligation (every KV prefix the module writes is read by ExportGenesis and written by InitGenesis, decided over the SSA of the module), GetAll* returns every stored record exactly as stored (iterator contract, all iterations), InitGenesis stores every listed record under its own key, ExportGenesis = the stores; Validate ==> importable (pool present). Composition Init(Export(s)) == s and equal continuation are meta-arguments; bank/auth/staking genesis and app/export.go are out of scope", "DESIGN.md 6 C18"),
  "C19": ("clauses from the statement on ReportFaults/RecoverFaults: success only for a registered node that is a fishman (or the accused provider itself for recovery); a report is stored only for an existing, unexpired shard the accused holds for the named order and model (call-site assertion at SetFault, all iterations); frame obligations: ReportFaults writes fault records only, RecoverFaults fault records, fishing rewards and the accused provider's own pledge record only, whose reward, debt and capacity pledge never grow nor go negative; DoPenalty touches no balance and no pledge", "DESIGN.md 6 C19"),
  "C20": ("Super ==> Req clauses on CheckDelegationShare, CheckNodeShare, AddVstorage (promotion), RemoveVstorage (demotion) and the staking hooks (promotion only with full status, pledge threshold and delegation share)", "DESIGN.md 6 C20"),
